@@ -2,12 +2,14 @@ module stunharness
 
 go 1.20
 
-require github.com/pion/stun/v3 v3.0.0
+require (
+	github.com/pion/stun/v3 v3.0.0
+	github.com/pion/transport/v3 v3.0.7
+)
 
 require (
 	github.com/pion/dtls/v3 v3.0.6 // indirect
 	github.com/pion/logging v0.2.3 // indirect
-	github.com/pion/transport/v3 v3.0.7 // indirect
 	github.com/wlynxg/anet v0.0.3 // indirect
 	golang.org/x/crypto v0.32.0 // indirect
 )
